@@ -688,17 +688,24 @@ func (ex *Exec) selectCells(cells []Value, idx *Term) (Value, bool) {
 }
 
 // indexAddr: &cells[idx] with bounds check.
-func (ex *Exec) indexAddr(fr *frame, cells []Value, idx Value, instr ssa.Instruction) Value {
+func (ex *Exec) indexAddr(fr *frame, cells []Value, idx Value, idxT types.Type) Value {
 	b := idx.(BV)
+	_, signed, _ := intInfo(idxT)
 	if b.t == nil {
 		i := b.Signed()
+		if !signed {
+			i = int64(b.c)
+			if b.c > 1<<62 {
+				i = -1
+			}
+		}
 		if i < 0 || i >= int64(len(cells)) {
 			ex.rtPanic(fmt.Sprintf("index out of range [%d] with length %d", i, len(cells)))
 		}
 		return &cells[i]
 	}
 	t := ex.tb.SExt(b.t, 64)
-	if b.w < 64 && b.t.op == OpZExt {
+	if !signed {
 		t = ex.tb.ZExt(b.t, 64)
 	}
 	inRange := ex.tb.Cmp(OpULt, t, ex.tb.Const(64, uint64(len(cells))))
@@ -711,8 +718,8 @@ func (ex *Exec) indexAddr(fr *frame, cells []Value, idx Value, instr ssa.Instruc
 	return &SymPtr{cells: cells, idx: t}
 }
 
-func (ex *Exec) indexValue(fr *frame, cells []Value, idx Value) Value {
-	p := ex.indexAddr(fr, cells, idx, nil)
+func (ex *Exec) indexValue(fr *frame, cells []Value, idx Value, idxT types.Type) Value {
+	p := ex.indexAddr(fr, cells, idx, idxT)
 	switch p := p.(type) {
 	case *Value:
 		return copyVal(*p)
